@@ -602,7 +602,7 @@ func conformingDeco(r *hx.Rng) deco {
 // pipelineDict re-runs a pipeline case of RunPipeline through a freshly written dictionary.
 func pipelineDict(c *hx.Ctx, r *hx.Rng, stages []stage, f filt, p parms, data []byte, known [][]byte, e expect) {
 	dc := conformingDeco(r)
-	e.key = "C05/roundtrip-dict"
+	e.key = "C05/roundtrip-dict" + e.suffix
 	d := dictWo(r, f, p, dc)
 	runDict(c, d, data, known, e)
 	// the dictionary this writer (written from §7.3.8.2 / §7.4) produced must satisfy the
